@@ -72,5 +72,5 @@ Qed.
 (* ---- a time-unit-wrapped parameter scales the variates by exactly the unit conversion factor (durations multiply, rates divide) *)
 Lemma dur_scaling v f : dur_values_gen v f = Ok (v * f)%Q.
 Proof. reflexivity. Qed.
-Lemma rate_scaling v f : rate_values_gen v f = Ok (v / f)%Q.
-Proof. reflexivity. Qed.
+Lemma rate_scaling v f : ~ (f == 0)%Q -> rate_values_gen v f = Ok (v / f)%Q.
+Proof. intros H. unfold rate_values_gen. destruct (Qeq_bool f 0) eqn:B; [apply Qeq_bool_eq in B; contradiction|reflexivity]. Qed.
